@@ -114,24 +114,46 @@ def run(ck):
                     out.append((n, c))
         return out
 
-    def is_method(c, recv, name):
-        return isinstance(c.func, ast.Attribute) and c.func.attr == name and isinstance(c.func.value, ast.Name) and c.func.value.id == recv
+    # Which call expressions of fit are optimizer.step / zero_grad / scheduler.step / vector_to_grads /
+    # compute_batch_gradients is decided by *resolving the callee* in an interpretation of fit with an optimizer and a
+    # scheduler, never by the spelling of the receiver (a local renamed `opt` is the same optimizer).
+    resolved = {}
 
-    ep_loops = [n for n, c in call_nodes(lambda c: isinstance(c.func, ast.Attribute) and c.func.attr == "on_epoch_start")]
-    b_loops = [n for n, c in call_nodes(lambda c: isinstance(c.func, ast.Attribute) and c.func.attr == "on_batch_start")]
+    def thr(it):
+        s = make_state(it, "ComplexWaveFunction")
+        data = tens(it, "data", ("N", "nv"))
+        call(it, s, "fit", data, lr=VNum("float", T.sym("lr"), pos=True), input_bases=api.bases_arr(it, "input_bases", "N"),
+             scheduler=VExt("torch.optim.lr_scheduler.StepLR"))
+        return s
+
+    sched_paths = []
+    with ck.guard("C06.R2", "resolve call sites of fit", fsite):
+        sched_paths = [p for p in paths_of(prog, thr, max_paths=100, sticky=True, stubs={"NeuralStateBase.compute_batch_gradients": stub_grad_lists}) if p.outcome == "return"]
+        for p in sched_paths:
+            for nm, nodes in p.interp.call_ast.items():
+                l = resolved.setdefault(nm, [])
+                l.extend(x for x in nodes if not any(x is y for y in l))
+
+    def is_resolved(c, name):
+        return any(c is x for k, l in resolved.items() if k == name or k.endswith("." + name) for x in l)
+
+    ep_loops = [n for n, c in call_nodes(lambda c: is_resolved(c, "CallbackList.on_epoch_start"))]
+    b_loops = [n for n, c in call_nodes(lambda c: is_resolved(c, "CallbackList.on_batch_start"))]
     if not ep_loops or not b_loops:
         ck.undecided("C06.R2", "loops", fsite, "epoch / batch loops not found")
     else:
         eloop = cfg.enclosing_loops(ep_loops[0].id)[-1]
         bloop = cfg.enclosing_loops(b_loops[0].id)[-1]
-        steps = call_nodes(lambda c: is_method(c, "optimizer", "step"))
-        zgs = call_nodes(lambda c: is_method(c, "optimizer", "zero_grad"))
-        vtg = call_nodes(lambda c: isinstance(c.func, ast.Name) and c.func.id == "vector_to_grads")
-        cbg = call_nodes(lambda c: isinstance(c.func, ast.Attribute) and c.func.attr == "compute_batch_gradients")
-        sch = call_nodes(lambda c: is_method(c, "scheduler", "step"))
-        ck.check(len(steps) == 1, "C06.R2", "exactly one optimizer.step() site", fsite, "optimizer.step() appears %d times in fit" % len(steps))
-        ck.check(len(cbg) == 1 and len(vtg) >= 1, "C06.R2", "batch pipeline present", fsite, "compute_batch_gradients / vector_to_grads not found")
-        if len(steps) == 1 and cbg and vtg:
+        steps = call_nodes(lambda c: is_resolved(c, "optimizer.step"))
+        zgs = call_nodes(lambda c: is_resolved(c, "optimizer.zero_grad"))
+        vtg = call_nodes(lambda c: is_resolved(c, "vector_to_grads"))
+        cbg = call_nodes(lambda c: is_resolved(c, "compute_batch_gradients"))
+        sch = call_nodes(lambda c: is_resolved(c, "scheduler.step"))
+        # The per-path operation order (C06.R2 timeline rule below) is what decides; the dominance rules here restate it on
+        # fit's own flow graph and apply only while the whole pipeline is written in fit itself (not in a helper).
+        ck.check(bool(resolved.get("optimizer.step")) and any(k.endswith("compute_batch_gradients") for k in resolved) and any(k.endswith("vector_to_grads") for k in resolved),
+                 "C06.R2", "batch pipeline present", fsite, "no call of optimizer.step / compute_batch_gradients / vector_to_grads is reached from fit")
+        if len(steps) == 1 and len(cbg) == 1 and vtg:
             sn = steps[0][0]
             encl = [l.id for l in cfg.enclosing_loops(sn.id)]
             ck.check(encl == [eloop.id, bloop.id], "C06.R2", "optimizer.step() once per batch", "%s:%s:%d" % (fit.module.relpath, fit.qualname, sn.lineno),
@@ -147,28 +169,51 @@ def run(ck):
                          "%s does not precede %s on every path of a batch iteration" % (n1, n2))
             # vector_to_grads inside a loop over the networks, inside the batch loop
             ve = cfg.enclosing_loops(vtg[0][0].id)
-            ck.check(len(ve) == 3 and ve[:2] == [eloop, bloop] and "networks" in ast.unparse(ve[2].ast.iter), "C06.R3", "gradients assigned for every network", fsite,
-                     "vector_to_grads is not called in a loop over self.networks inside the batch loop")
+            ck.check(len(ve) >= 2 and ve[:2] == [eloop, bloop], "C06.R3", "gradients assigned inside the batch loop", fsite,
+                     "vector_to_grads is not called inside the batch loop (which networks it covers is decided per network below)")
             # zero_grad must not come after the assignment
             for zn, _ in zgs:
                 bad = cfg.dominates(vnode.id, zn.id) and cfg.dominates(zn.id, sn.id)
                 ck.check(not bad, "C06.R2", "gradients not cleared between assignment and step", "%s:%s:%d" % (fit.module.relpath, fit.qualname, zn.lineno),
                          "optimizer.zero_grad() runs after the gradients were assigned and before optimizer.step(): the update is lost")
         # ---------------- R4 scheduler
-        ck.check(len(sch) == 1, "C06.R4", "exactly one scheduler.step() site", fsite, "scheduler.step() appears %d times in fit" % len(sch))
+        ck.check(bool(resolved.get("scheduler.step")), "C06.R4", "a given scheduler is advanced", fsite, "scheduler.step() is never reached from fit with a scheduler given")
+        lsite = fsite
         if len(sch) == 1:
             n = sch[0][0]
             encl = [l.id for l in cfg.enclosing_loops(n.id)]
             lsite = "%s:%s:%d" % (fit.module.relpath, fit.qualname, n.lineno)
             ck.check(encl == [eloop.id], "C06.R4", "scheduler.step() once per epoch, outside the batch loop", lsite,
                      "scheduler.step() is %s" % ("inside the batch loop: the learning rate is advanced once per batch" if bloop.id in encl else "outside the epoch loop"))
+        if True:
             guards = [g for g in cfg.nodes if g.kind == "test" and cfg.dominates(g.id, n.id) and eloop.ast.body[0].lineno <= g.lineno]
-            ok = all(ast.unparse(g.ast.test) in ("scheduler is not None", "scheduler") for g in guards) and len(guards) == 1
-            ck.check(ok, "C06.R4", "scheduler.step() guarded only by `scheduler is not None`", lsite, "scheduler.step() is guarded by %s" % [g.label for g in guards])
-            # must not be skipped by the batch loop's break: it post-dominates the batch loop exit on scheduler paths
-            be = [x for x, c in call_nodes(lambda c: isinstance(c.func, ast.Attribute) and c.func.attr == "on_epoch_end")]
-            if be:
-                ck.check(guards and cfg.dominates(guards[0].id, be[0].id), "C06.R4", "scheduler advanced before the epoch-end event", lsite, "the scheduler test does not precede on_epoch_end on every path")
+            # what guards it is decided by value: with a scheduler given, every path of fit advances it exactly once in
+            # every epoch that runs to its end (an epoch = from one epoch-start event to the next), after that epoch's
+            # last optimizer step.  Where it stands relative to the epoch-end event, and whether an epoch cut short by
+            # a stop request still advances it, is not fixed by the property: both are accepted.
+            for p in sched_paths:
+                tl = [n_ for _k, n_, _r in p.interp.timeline if n_ in ("optimizer.step", "scheduler.step", "CallbackList.on_epoch_start")]
+                epochs, cur = [], None
+                for n_ in tl:
+                    if n_ == "CallbackList.on_epoch_start":
+                        cur = []
+                        epochs.append(cur)
+                    elif cur is not None:
+                        cur.append(n_)
+                li = [l for l in p.interp.loops if l.get("node") is eloop.ast]
+                broke = [bool(li[0]["first"] and li[0]["first"].get("broke")), bool(li[0]["generic"] and li[0]["generic"].get("broke"))] if len(li) == 1 else None
+                if broke is None or len(epochs) > 2:
+                    ck.undecided("C06.R4", "epoch loop of fit [%s]" % path_tag(p), lsite, "the epoch loop was not analysed as (first, generic) iteration")
+                    continue
+                for k_, ev in enumerate(epochs):
+                    nsch = ev.count("scheduler.step")
+                    okn = nsch == 1 or (broke[k_] and nsch == 0)
+                    ck.check(okn, "C06.R4", "given scheduler advanced exactly once in analysed epoch %d [%s]" % (k_, path_tag(p)), lsite,
+                             "scheduler.step() runs %d times in an epoch that %s (events: %s)" % (nsch, "was stopped" if broke[k_] else "ran to its end", ev[-4:]))
+                    if nsch == 1:
+                        ck.check("optimizer.step" not in ev[ev.index("scheduler.step"):], "C06.R4", "scheduler advanced after the epoch's optimizer steps [%s]" % path_tag(p), lsite,
+                                 "an optimizer step follows scheduler.step() inside the epoch")
+            ck.check(bool(sched_paths), "C06.R4", "fit with a scheduler returns", lsite, "no returning path of fit with a scheduler was found")
     # ------------------------------------------------------------------ R3 pairing and optimizer construction (effect facet)
     for cls in STATES:
         inst = "fit/" + cls
@@ -251,7 +296,7 @@ def run(ck):
                     ck.check(isinstance(g, VTens) and g.shape == q.shape, "C06.R5", "%s:%s shape" % (inst, n), vf.site(), ".grad of %s has shape %s, parameter has %s" % (n, getattr(g, "shape", None), q.shape))
                     off = off + numel
     ck.require_min("C06.R1", 40)
-    ck.require_min("C06.R2", 10)
+    ck.require_min("C06.R2", 7)
     ck.require_min("C06.R3", 12)
     ck.require_min("C06.R4", 4)
     ck.require_min("C06.R5", 16)
